@@ -397,6 +397,20 @@ func (b *Bitmap) Max() uint64 {
 	}
 
 	hb, c := b.Containers.Last()
+	if c.N() == 0 {
+		// The highest key can hold a nil or emptied container (removes do
+		// not drop keys), so look for the last container that has data.
+		hb, c = 0, nil
+		citer, _ := b.Containers.Iterator(0)
+		for citer.Next() {
+			if k, cc := citer.Value(); cc.N() > 0 {
+				hb, c = k, cc
+			}
+		}
+		if c == nil {
+			return 0
+		}
+	}
 	lb := c.max()
 	return hb<<16 | uint64(lb)
 }
